@@ -410,6 +410,14 @@ func enumerate(thorough bool, emit func(*Case)) {
 								c.C2S = Dir{WM: st.c2s.WM, Sizes: append([]int(nil), s...), RM: st.c2s.RM, Bufs: append([]int(nil), st.c2s.Bufs...)}
 								c.S2C = Dir{WM: st.s2c.WM, Sizes: append([]int(nil), s...), RM: st.s2c.RM, Bufs: append([]int(nil), st.s2c.Bufs...)}
 								emit(&c)
+								if e2 == 0 && !wait && (thorough || pr.i == pr.j) {
+									// the relay waits for the response to start (zero-length Read) before copying it
+									pk := c
+									pk.Peek = true
+									pk.C2S.Sizes, pk.C2S.Bufs = append([]int(nil), s...), append([]int(nil), st.c2s.Bufs...)
+									pk.S2C.Sizes, pk.S2C.Bufs = append([]int(nil), s...), append([]int(nil), st.s2c.Bufs...)
+									emit(&pk)
+								}
 							}
 						}
 					}
